@@ -496,6 +496,8 @@ class Oracle:
         i = self.ids.get(m)
         if o == 'dropMgr':
             self.alive[m] = False
+            for key in [x for x in self.taint if x[0] == m]:
+                del self.taint[key]
             return
         k = op.get('s')
         nsrv = self.case['nsrv']
@@ -604,9 +606,6 @@ class Oracle:
                             {tup(x) for x in reg[key]}
                         if have & gone[cls]:
                             self.taint[(mg['m'], kk)] = 'sub_end_owned_by_other_manager'
-        if o == 'dropMgr':
-            for key in [x for x in self.taint if x[0] == m]:
-                del self.taint[key]
         if o == 'removeServer' and 'ok' in res:
             self.taint.pop((m, k), None)
         # ---- forget what this op deleted
@@ -1073,9 +1072,62 @@ def do_cases(run, seeds):
             run.count('oracle:%s:%s' % (sig.get('kind'), sig.get('cause', '-')))
 
 
-def run(run):
+def _generated_current():
+    """is lean/Pywbem/Generated/SubMgr.lean what the extractor reads from THIS repo?  (Every check run of any
+    property rewrites all generated tables from its own repo; while builders work on private worktrees that do
+    not carry each other's fixes, a concurrent run can rewrite the file between this check's extraction and its
+    lake build.)"""
+    import importlib.util
+    path = os.path.join(common.VERIF, 'tools', 'extractors', 'submgr.py')
+    spec = importlib.util.spec_from_file_location('ex_submgr_c18', path)
+    mod = importlib.util.module_from_spec(spec)
+    spec.loader.exec_module(mod)
+    try:
+        want = mod.emit(common.REPO).get('SubMgr.lean')
+    except Exception:
+        return True         # the extractor itself fails on this repo: nothing to retry, the verdict logic reports it
+    try:
+        with open(os.path.join(common.LEAN, 'Pywbem', 'Generated', 'SubMgr.lean')) as f:
+            return f.read() == want
+    except OSError:
+        return False
+
+
+def _stable_lean(run):
+    """repeat extraction + build while another check run interfered with the generated table"""
+    for _ in range(4):
+        if _generated_current() and run.lean is not None and run.lean.build_ok:
+            return
+        if _generated_current() and run.lean is not None and not run.lean.build_ok and \
+                'idEscaped' not in run.lean.build_log and 'Rejected' not in run.lean.build_log:
+            return          # a genuine build failure
+        run.notes.append('generated table was rewritten by a concurrent run; extraction + build repeated')
+        run.lean = common.lean_check(PROP, thorough=run.thorough)
+
+
+def oracle_only(run):
+    """called when the Lean build failed: first rule out interference on the generated table"""
+    _stable_lean(run)
+    if run.lean.build_ok:
+        globals()['run'](run)
+        return
+    _register_module()
+    server(0)
+    server(1)
     rng = run.rng
-    n = 24000 if run.thorough else 1600
+    seeds = [(rng.getrandbits(48), MODES[i % len(MODES)], run.thorough) for i in range(600)]
+    for case, steps, viols, _ in common.pmap(generate_and_run, seeds, chunksize=4):
+        run.case({'nsrv': case['nsrv'], 'static': case['static'], 'ops': case['ops']})
+        for sig, obs in viols:
+            run.violate(sig, case, obs)
+
+
+def run(run):
+    _stable_lean(run)
+    if not run.lean.build_ok:
+        return oracle_only(run)
+    rng = run.rng
+    n = 16000 if run.thorough else 1600
     run.rule = ('seeded random histories of 6..18 (thorough 26) manager calls on 1-2 mock WBEM servers (Interop namespace, '
                 'the three subscription providers, random static filters/destinations/subscriptions incl. names that look '
                 'like markers) with 1-3 live manager objects whose ids come from one confusable family (regex '
@@ -1148,9 +1200,15 @@ def replay(payload):
     if 'case' in case and 'ops' not in case:
         case = case['case']
     steps, viols = execute(case)
-    if viols:
+    known = common.load_known_all()
+    unknown = [v for v in viols if not any(common.matches(f, PROP, v[0]) for f in known)]
+    if unknown:
         want = payload.get('sig')
-        hit = [v for v in viols if v[0] == want] or viols
+        hit = [v for v in unknown if v[0] == want] or unknown
         return False, 'property C18 FAILS on this history: %s\nobserved: %s' % (
             json.dumps(hit[0][0]), json.dumps(hit[0][1], default=str))
+    if viols:
+        ids = sorted({f['id'] for v in viols for f in known if common.matches(f, PROP, v[0])})
+        return True, ('property C18 holds on this history except for the recorded known findings %s '
+                      '(%d steps re-executed on the real code)' % (', '.join(ids), len(steps)))
     return True, 'property C18 holds on this history (%d steps re-executed on the real code)' % len(steps)
